@@ -121,11 +121,144 @@ def structured_tail(rng, stored, content, cont):
     return stored + pad + v.to_bytes(4, "little"), {"tail": "le32", "value": v, "plain_len": R, "pad": len(pad)}
 
 
+TAR_FIELDS = (("name", 0, 100, "s"), ("mode", 100, 8, "n"), ("uid", 108, 8, "n"), ("gid", 116, 8, "n"), ("size", 124, 12, "n"),
+              ("mtime", 136, 12, "n"), ("typeflag", 156, 1, "t"), ("linkname", 157, 100, "s"), ("magic", 257, 6, "s"),
+              ("version", 263, 2, "s"), ("uname", 265, 32, "s"), ("gname", 297, 32, "s"), ("devmajor", 329, 8, "n"),
+              ("devminor", 337, 8, "n"), ("prefix", 345, 155, "s"))
+
+
+def _varint(v):
+    out = bytearray()
+    while True:
+        b = v & 0x7F
+        v >>= 7
+        if v:
+            out.append(b | 0x80)
+        else:
+            out.append(b)
+            return bytes(out)
+
+
+def field_fault(rng, cont, stored, content):
+    """a header / trailer / index FIELD set to an extreme or inconsistent value, with the format's own integrity fields
+    (tar header checksum, LZ4 descriptor checksum, xz index and footer CRC32) recomputed -- so the damage is not turned away
+    by the first checksum test and reaches the code that uses the field. -> (bytes, descr) or None"""
+    import struct
+    import zlib
+    R = len(content)
+    if cont == "tar":
+        b = bytearray(stored)
+        heads = []
+        off = 0
+        while off + 512 <= len(b) and any(b[off:off + 512]):
+            try:
+                size = int(bytes(b[off + 124:off + 136]).strip(b"\x00 ") or b"0", 8)
+            except ValueError:
+                break
+            heads.append(off)
+            off += 512 + (size + 511) // 512 * 512
+        if not heads:
+            return None
+        h = rng.choice(heads)
+        (fname, fo, fl, kind) = rng.choice(TAR_FIELDS + (("size", 124, 12, "n"), ("mtime", 136, 12, "n"), ("size", 124, 12, "n")))
+        if kind == "n":
+            val = rng.choice((b"\x80" + b"\xff" * (fl - 1), b"\xff" * fl, b"\x80" + b"\x00" * (fl - 9) + (2 ** 63).to_bytes(8, "big") if fl >= 9 else b"\xff" * fl,
+                              b"\x80" + b"\x00" * (fl - 9) + (2 ** 63 - 1).to_bytes(8, "big") if fl >= 9 else b"\x80" * fl,
+                              b"\x80" + b"\x00" * (fl - 9) + (8 * 10 ** 12 + rng.randrange(10 ** 12)).to_bytes(8, "big") if fl >= 9 else b"7" * fl,
+                              b"7" * (fl - 1) + b"\x00", b"9" * (fl - 1) + b"\x00", b" " * fl, b"\x00" * fl, b"-" + b"1" * (fl - 2) + b"\x00",
+                              (b"%0*o" % (fl - 1, R + 1)) + b"\x00", (b"%0*o" % (fl - 1, max(0, R - 1))) + b"\x00", (b"%0*o" % (fl - 1, 2 * R + 512)) + b"\x00"))
+        elif kind == "t":
+            val = bytes([rng.choice(b"01234567xgLKSVMN\x00\xff ")])
+        else:
+            val = rng.choice((b"\x00" * fl, b"A" * fl, b"\xff" * fl, b"../" * (fl // 3) + b"." * (fl % 3), b"/" + b"a" * (fl - 1), bytes(rng.getrandbits(8) for _ in range(fl))))
+        val = (val + b"\x00" * fl)[:fl]
+        b[h + fo:h + fo + fl] = val
+        b[h + 148:h + 156] = b" " * 8
+        b[h + 148:h + 156] = b"%06o\x00 " % sum(b[h:h + 512])
+        return bytes(b), {"field": "tar." + fname, "value": val[:16].hex(), "header_at": h, "checksum": "recomputed"}
+    if cont == "gz" and len(stored) > 18:
+        b = bytearray(stored)
+        which = rng.choice(("isize", "isize", "crc32", "both"))
+        if which in ("isize", "both"):
+            v = rng.choice((0, 1, R + 1, max(0, R - 1), 2 * R, 0xFFFFFFFF, 0x7FFFFFFF, 0x80000000, R + 65536, 65535, 65536, 65537)) & 0xFFFFFFFF
+            b[-4:] = struct.pack("<I", v)
+        if which in ("crc32", "both"):
+            b[-8:-4] = struct.pack("<I", rng.getrandbits(32))
+        return bytes(b), {"field": "gz." + which, "isize": int.from_bytes(b[-4:], "little"), "plain_len": R}
+    if cont == "lz4" and len(stored) > 7 and stored[:4] == b"\x04\x22\x4d\x18":
+        flg, bd = stored[4], stored[5]
+        dlen = 2 + (8 if flg & 0x08 else 0)
+        rest = stored[4 + dlen + 1:]
+        how = rng.choice(("content_size", "content_size", "block_max", "version", "reserved", "dict_id"))
+        if how == "content_size":
+            flg |= 0x08
+            v = rng.choice((0, 1, R + 1, max(0, R - 1), 2 ** 63, 2 ** 64 - 1, 2 ** 40, 2 ** 32, R * 1000 + 7))
+            desc = bytes([flg, bd]) + struct.pack("<Q", v)
+        elif how == "block_max":
+            desc = bytes([flg & ~0x08, (rng.choice((0, 1, 2, 3, 7)) << 4) | (bd & 0x8F)])
+            v = desc[1]
+        elif how == "version":
+            desc = bytes([(flg & 0x37) | rng.choice((0x00, 0x80, 0xC0)), bd])
+            v = desc[0]
+        elif how == "reserved":
+            desc = bytes([(flg & ~0x08) | 0x02, bd | rng.choice((0x01, 0x80))])
+            v = desc[1]
+        else:
+            desc = bytes([(flg & ~0x08) | 0x01, bd]) + struct.pack("<I", rng.getrandbits(32))
+            v = 0
+        hc = (world.xxh32(desc) >> 8) & 0xFF
+        return stored[:4] + desc + bytes([hc]) + rest, {"field": "lz4." + how, "value": v, "descriptor_checksum": "recomputed", "plain_len": R}
+    if cont == "xz" and len(stored) > 32 and stored[-2:] == b"YZ":
+        # rebuild index + footer with another uncompressed / unpadded size for the (single) block
+        bsz = (struct.unpack("<I", stored[-8:-4])[0] + 1) * 4
+        idx_start = len(stored) - 12 - bsz
+        idx = stored[idx_start:idx_start + bsz]
+        if idx[0] != 0 or idx[1] != 1:
+            return None
+        # one record: two varints
+        k = 2
+        vals = []
+        for _ in range(2):
+            v = 0
+            sh = 0
+            while True:
+                c = idx[k]
+                k += 1
+                v |= (c & 0x7F) << sh
+                sh += 7
+                if not c & 0x80:
+                    break
+            vals.append(v)
+        which = rng.choice(("uncompressed", "uncompressed", "unpadded", "records"))
+        nrec = 1
+        if which == "uncompressed":
+            vals[1] = rng.choice((0, 1, R + 1, max(0, R - 1), 2 * R, 2 ** 40, 2 ** 62, 65536, R + 65536))
+        elif which == "unpadded":
+            vals[0] = rng.choice((5, vals[0] + 4, max(5, vals[0] - 4), 2 ** 40))
+        else:
+            nrec = rng.choice((0, 2, 2 ** 31))
+        body = b"\x00" + _varint(nrec) + _varint(vals[0]) + _varint(vals[1])
+        body += b"\x00" * (-len(body) % 4)
+        body += struct.pack("<I", zlib.crc32(body) & 0xFFFFFFFF)
+        flags = stored[-4:-2]
+        back = struct.pack("<I", len(body) // 4 - 1)
+        footer = struct.pack("<I", zlib.crc32(back + flags) & 0xFFFFFFFF) + back + flags + b"YZ"
+        return stored[:idx_start] + body + footer, {"field": "xz.index." + which, "values": vals, "records": nrec, "crc": "recomputed", "plain_len": R}
+    return None
+
+
 def inject(rng, name, stored, content=None, cont=None):
     """-> (name, damaged bytes, fault descr)"""
     f = rng.choice(("truncate", "truncate", "flip", "flip", "multi_flip", "zero_fill", "random_bytes", "wrong_name",
-                    "garbage_tail", "structured_tail", "structured_tail", "none"))
+                    "garbage_tail", "structured_tail", "structured_tail", "field", "field", "field", "none"))
     n = len(stored)
+    if f == "field":
+        r = field_fault(rng, cont, stored, content) if content is not None and cont in ("tar", "gz", "lz4", "xz") else None
+        if r is None:
+            f = "flip"
+        else:
+            r[1].update({"fault": "field_with_valid_checksum", "of": n})
+            return name, r[0], r[1]
     if f == "structured_tail":
         if content is None:
             f = "garbage_tail"
@@ -334,6 +467,28 @@ def timefield_case(rng):
                                                             "at": at, "val": val, "base_kind": "utmp", "base_container": "plain"}
 
 
+def field_case(rng):
+    """a checksum-consistent field corruption (field_fault) of a tar / gz / lz4 / xz around valid content of every kind"""
+    for _ in range(20):
+        name, content, kind, cont, stored = valid_base(rng)
+        if cont == "plain" or cont == "bz2":
+            continue
+        r = field_fault(rng, cont, stored, content)
+        if r is None:
+            continue
+        data, fdesc = r
+        fdesc.update({"fault": "field_with_valid_checksum", "of": len(stored), "base_kind": kind, "base_container": cont})
+        files = [core.FileSpec(name, data, 1600000000)]
+        valids = []
+        if rng.random() < 0.4:
+            valids = merge.gen_sources(rng, 1, 65536, max_msgs=6, allow_degenerate=False, letter_base=6)
+            valids[0].path = "v0.log"
+            files.insert(rng.randrange(2), core.FileSpec("v0.log", valids[0].stored, 1600000000))
+        argv = ["--color", "never", "-n", "--tz-offset", "+00:00"] + [f.path for f in files]
+        return core.Scenario(files, argv, None, "UTC"), valids, fdesc
+    return build_case(rng)
+
+
 def sweep_case(rng, j, tier):
     """fixed-record files: one byte set to an extreme value (time fields, type fields, sizes ...)"""
     L = enum_list()
@@ -356,6 +511,8 @@ def run_case(seed, i, tier):
     cr = CaseResult()
     if i % 8 == 7:
         scn, valids, fdesc = timefield_case(rng)
+    elif i % 8 == 3:
+        scn, valids, fdesc = field_case(rng)
     elif i % 2 == 1:
         scn, valids, fdesc = sweep_case(rng, i // 2, tier)
     else:
